@@ -111,15 +111,29 @@ def plan(tier, seed):
         nq = _half_scales_quick(dtname).numel()
         n = _half_scales(dtname, tier).numel()
         for q in num.Q8:
-            for lo in range(0, nq, CH):
-                tasks.append({"kind": "half", "dt": dtname, "q": q, "set": "quick", "lo": lo, "hi": min(nq, lo + CH), "modes": ["axis0", "axism1", "tensor"]})
+            def chunks(total):
+                los = list(range(0, total, CH))
+                for lo in los:
+                    hi = min(total, lo + CH)
+                    if total - hi == 1:
+                        hi = total
+                    if not (total - lo == 1 and len(los) > 1):
+                        yield lo, hi
+
+            for lo, hi in chunks(nq):
+                tasks.append({"kind": "half", "dt": dtname, "q": q, "set": "quick", "lo": lo, "hi": hi, "modes": ["axis0", "axism1", "tensor"]})
             if tier == "thorough":
-                for lo in range(0, n, CH):
-                    tasks.append({"kind": "half", "dt": dtname, "q": q, "set": "all", "lo": lo, "hi": min(n, lo + CH), "modes": ["axis0"]})
+                for lo, hi in chunks(n):
+                    tasks.append({"kind": "half", "dt": dtname, "q": q, "set": "all", "lo": lo, "hi": hi, "modes": ["axis0"]})
     ns = _f32_scales(tier).numel()
     for q in num.Q8:
-        for lo in range(0, ns, 8):
-            tasks.append({"kind": "f32", "q": q, "tier": tier, "lo": lo, "hi": min(ns, lo + 8)})
+        los = list(range(0, ns, 8))
+        for lo in los:
+            hi = min(ns, lo + 8)
+            if ns - hi == 1:
+                hi = ns  # never leave a chunk of a single scale (per-axis quantization needs >= 2 rows)
+            if lo < hi and not (lo == los[-1] and ns - lo == 1 and len(los) > 1):
+                tasks.append({"kind": "f32", "q": q, "tier": tier, "lo": lo, "hi": hi})
     for q in num.Q8:
         for dtname in ("float32", "float16", "bfloat16"):
             tasks.append({"kind": "layout", "q": q, "dt": dtname})
@@ -340,7 +354,7 @@ def run_task(task):
             out["evals"] += st["elements"]
             out["calls"] += st["calls"]
             if first:
-                out["nontrivial"] += st["saturating"] + st["ties"] + st["offgrid"]
+                out["nontrivial"] += st["saturating"] + st["offgrid"]  # ties are a subset of the off-grid elements
                 out["points"] += st["elements"]
                 for k in ("saturating", "ties", "offgrid"):
                     out["counters"][k] = out["counters"].get(k, 0) + st[k]
@@ -357,7 +371,7 @@ def run_task(task):
         out["evals"] += st["elements"]
         out["points"] += st["elements"]
         out["calls"] += st["calls"]
-        out["nontrivial"] += st["saturating"] + st["ties"] + st["offgrid"]
+        out["nontrivial"] += st["saturating"] + st["offgrid"]
         for k in ("saturating", "ties", "offgrid"):
             out["counters"][k] = out["counters"].get(k, 0) + st[k]
         for s in scales:
@@ -371,7 +385,7 @@ def run_task(task):
                 out["calls"] += st["calls"]
                 if mode == "tensor":
                     out["points"] += st["elements"] // 2
-                    out["nontrivial"] += (st["saturating"] + st["ties"] + st["offgrid"]) // 2
+                    out["nontrivial"] += (st["saturating"] + st["offgrid"]) // 2
                     out["counters"]["boundary_ties"] = out["counters"].get("boundary_ties", 0) + st["ties"] // 2
         out["samples"].append({"dtype": "float32", "qtype": qname, "scale": float(scales[0]), "lattice_points": int(lat.numel()), "boundary_points": int(b.numel())})
     elif kind == "layout":
